@@ -35,7 +35,32 @@ def C14(tier, rng):
              'enc.name %s' % pname((b'h300', b'example', b'org'))]
     for _ in range(sz(tier, 3, 20)):
         for g in after:
-            cs.append(Case(g, 'repeat')); cs.append(Case(big_ok, 'big-first')); cs.append(Case(g, 'repeat'))
+            cs.append(Case(g, 'repeat')); cs.append(Case(big_ok, 'repeat')); cs.append(Case(g, 'repeat'))
+    # more than 128 / 256 distinct names, then names sharing suffixes with early AND late ones; hosts with A and AAAA
+    for nhosts in (130, 150, 300):
+        hosts = msg_with([{'ty': t, 'name': (b'host-%03d' % i, b'example', b'org'), 'ttl': 1, 'cls': 1, 'f': [bytes([i % 256] * (4 if t == 1 else 16))]}
+                          for t in (1, 28) for i in range(nhosts)])
+        bh, _ = render(hosts)
+        for _ in range(sz(tier, 3, 12)):
+            cs.append(Case('enc.dns %s' % pmsg(hosts), 'repeat'))
+        cs.append(Case('mt.dns 16 %d %s' % (sz(tier, 4, 16), hx(bh)), 'mt-many-names'))
+        cs.append(Case('mt.dns 2 %d %s' % (sz(tier, 8, 32), hx(bh)), 'mt-many-names'))
+    # element-level decodes whose names are BARE POINTERS (to offset 0 / 12 of their own buffer), interleaved with message
+    # decodes and with each other on one thread: what a pointer expands to depends on the buffer it is in, never on an
+    # earlier call
+    elems = []
+    for k, owner in enumerate(((b'example', b'net'), (b'example', b'org'), (b'example', b'com'), (b'a',), (b'mail', b'example', b'net'))):
+        w = b''.join(bytes([len(l)]) + l for l in owner) + b'\0'
+        elems.append('dec.rr %s' % hx(w + b'\0\x0f\0\1\0\0\0\x3c\0\4\0\x0a\xc0\0'))          # MX exchange = pointer to the owner at 0
+        elems.append('dec.rr %s' % hx(w + b'\0\x02\0\1\0\0\0\x3c\0\2\xc0\0'))                   # NS
+        pad = b'\1p' * ((12 - len(w) % 12) // 2) if len(w) < 12 else b''
+        elems.append('dec.question %s' % hx(b'\xc0\x04\0\1\0\1' if False else (w + b'\0\1\0\1')))
+        elems.append('dec.name %s' % hx(w))
+    msgs = ['dec.dns %s' % hx(v) for v in (two_ptr, hop_chain_msg(3))] + ['dec.dns %s' % hx(b) for b in corpus_vectors()[:6]]
+    for _ in range(sz(tier, 6, 40)):
+        order = elems + msgs
+        rng.shuffle(order)
+        for o in order: cs.append(Case(o, 'repeat'))
     zz = [names_msg_a(p) for p in look_alike_name_pairs() if p[0][0] in (b'Zone', b'zone', b'ZZ', b'zz')]
     for m in zz:
         b, _ = render(m)
@@ -77,6 +102,7 @@ def C14(tier, rng):
 
 def C15(tier, rng):
     cs = []
+    cs += sweep_enc_rr_cases(types=(OPT,)) + sweep_rr_wire_cases(types=(OPT,))
     # option values reached through the setters (a refused call must not leave a value outside the RFC domain behind)
     cs += cookie_histories(2)
     for payload in range(0, 65536, sz(tier, 1, 1)):
@@ -125,6 +151,7 @@ def C15(tier, rng):
 
 def C16(tier, rng):
     cs = []
+    cs += sweep_enc_rr_cases(types=(SVCB, HTTPS)) + sweep_rr_wire_cases(types=(SVCB, HTTPS))
     kinds = [0, 1, 2, 3, 4, 5, 6, 7, 65534, 65535]
     # emitted records: parameter sets over all kinds, any insertion order, duplicates
     for _ in range(sz(tier, 20000, 80000)):
@@ -134,6 +161,7 @@ def C16(tier, rng):
         rr = {'ty': ty, 'name': rand_name(rng), 'ttl': bnum(rng, 4), 'cls': 1, 'prio': rng.choice([1, 1, 65535, 2]), 'target': rand_name(rng), 'params': given}
         exp = dict(rr, params=[('mandatory', sorted(p[1])) if p[0] == 'mandatory' else p for p in dedup_first(given)])
         cs.append(Case('enc.rr %s' % prr(rr), 'enc-svcb', exp=('RR', lower_text(prr(exp)))))
+    cs += svcb_alias_param_cases()
     for n in (0, 1, 255, 256, 300):
         for k in (5, 7):
             p = ('ech', bytes(n)) if k == 5 else ('key', 7, bytes(n))
@@ -158,16 +186,7 @@ def C16(tier, rng):
     for k, bodies in bad.items():
         for body in bodies:
             cs.append(Case('dec.rr %s' % hx(svcb_rr(64, 1, b'\0', [pw(k, body)])), 'bad-len%d' % k))
-    # every value length 0..=40 for every kind, alone and followed by another parameter (window and RDLENGTH consistent:
-    # only the kind's own format can refuse the value)
-    for k in keys:
-        for n in range(0, 41):
-            body = bytes((7 * i + 1) % 251 for i in range(n))
-            alpn = (bytes([n - 1]) + body[:n - 1]) if n else b''
-            for bd in ((body, alpn) if k == 1 else (body,)):
-                cs.append(Case('dec.rr %s' % hx(svcb_rr(64, 1, b'\0', [pw(k, bd)])), 'every-len'))
-                if k < 65534:
-                    cs.append(Case('dec.rr %s' % hx(svcb_rr(65, 1, b'\0', [pw(k, bd), pw(65534, b'z')])), 'every-len'))
+    cs += svcb_every_len_cases()
     for k in keys:
         for body in PARAM_SAMPLES[k]:
             for d in DELTAS:
@@ -179,6 +198,16 @@ def C16(tier, rng):
         rr = rand_rr(rng, rng.choice([SVCB, HTTPS]), [])
         r = Renderer(Layout(rng, shuffle_params=True)); r.rr(rr)
         cs.append(Case('dec.rr %s' % hx(bytes(r.out)), 'wire-valid'))
+    return cs
+
+def svcb_alias_param_cases():
+    """alias form (priority 0) with parameters in the VALUE: C16 demands that the emitted record carries none (that the
+    value then does not survive a round trip is C08's recorded finding K4b, not a C16 matter)"""
+    cs = []
+    for ty in (SVCB, HTTPS):
+        for pm in (('port', 80), ('alpn', [b'h2']), ('key', 7, b'z'), ('nodefaultalpn',)):
+            rr = {'ty': ty, 'name': (b'a',), 'ttl': 0, 'cls': 1, 'prio': 0, 'target': (b't',), 'params': [pm]}
+            cs.append(Case('enc.rr %s' % prr(rr), 'alias-params', exp=('RR', lower_text(prr(dict(rr, params=[]))))))
     return cs
 
 def dedup_first(ps):
@@ -201,6 +230,20 @@ def addr_grid(size):
 
 def C17(tier, rng):
     cs = []
+    # values reached through the setters: prefix within the family size and no bit beyond it, whatever the history
+    ap_calls = ['prefix:0', 'prefix:8', 'prefix:31', 'prefix:32', 'prefix:33', 'prefix:40', 'prefix:128', 'prefix:129', 'prefix:255', 'neg:1', 'addr:1/0a000000', 'addr:1/0a000001', 'addr:2/' + 'ff' * 16, 'addr:2/' + '00' * 16]
+    ap_inits = ['1/0/0/00000000', '1/8/1/0a000000', '1/32/0/0a000001', '1/24/0/c0000200', '2/64/1/1122334400000000' + '00' * 8, '2/128/0/' + '00' * 15 + '01', '2/0/0/' + '00' * 16]
+    for init in ap_inits:
+        for k in range(0, 3):
+            for seq in itertools.product(ap_calls, repeat=k):
+                cs.append(Case('api.apitem %s%s' % (init, ''.join(' ' + c for c in seq)), 'apitem-history'))
+    ecs_calls = ['src:0', 'src:24', 'src:32', 'src:33', 'src:64', 'src:128', 'src:129', 'scope:0', 'scope:32', 'scope:33', 'scope:64', 'scope:128', 'scope:129', 'scope:255',
+                 'addr:1/0a000000', 'addr:1/0a000001', 'addr:2/' + '00' * 16, 'addr:2/20010db8' + '00' * 12]
+    for init in ('1/0/0/00000000', '1/24/0/0a000100', '1/32/32/0a000001', '2/32/0/20010db8' + '00' * 12, '2/56/64/20010db8000100' + '00' * 9):
+        for k in range(0, 3):
+            for seq in itertools.product(ecs_calls, repeat=k):
+                cs.append(Case('api.ecs %s%s' % (init, ''.join(' ' + c for c in seq)), 'ecs-history'))
+    cs += [c for c in sweep_enc_rr_cases(types=(APL, OPT)) if 'ecs:' in c.op or c.op.startswith('enc.rr RR 42 ')] + sweep_rr_wire_cases(types=(APL,))
     for fam, size in ((1, 4), (2, 16)):
         addrs = addr_grid(size)
         prefixes = range(256) if tier == 'thorough' else sorted(set(list(range(0, 40)) + list(range(120, 136)) + [63, 64, 65, 255]))
@@ -238,6 +281,7 @@ def C17(tier, rng):
 NEWTYPES = [17, 18, 21, 26, 33, 36, 39, 107, SVCB, HTTPS]
 def C18(tier, rng):
     cs = []
+    cs += sweep_enc_dns_cases(types=tuple(NEWTYPES))
     base = (b'host', b'example', b'org')
     def rr_of(ty, n, owner):
         rr = rand_rr(random.Random(ty), ty, [])
@@ -270,6 +314,19 @@ def C18(tier, rng):
                             {'ty': 15, 'name': (b'y',) + n, 'ttl': 0, 'cls': 1, 'f': [5, (b'z',) + n]}):
                     cs.append(enc_case(msg_with([mid, rr_of(ty, n, (b'o',))], qs=[q]), 'c18-earlier-compressed'))
                     cs.append(enc_case(msg_with([mid, rr_of(ty, n, n), rr_of(ty, n, (b'o2',))], qs=[q]), 'c18-earlier-compressed'))
+    # beyond 16 KiB: an earlier registered name straddles offset 0x3FFF (only its first labels can be pointed at), later
+    # records of the listed types share its suffixes; also the earlier name first written at offsets that are multiples of 256
+    for off in range(0x3FFF - 24, 0x3FFF + 4, sz(tier, 1, 1)):
+        m = straddle_msg(off, later_newtype=True)
+        if m: cs.append(enc_case(m, 'c18-straddle'))
+        m = straddle_msg(off, labels=(b'srv', b'example', b'net'), later_newtype=True)
+        if m: cs.append(enc_case(m, 'c18-straddle'))
+    for ty in NEWTYPES:
+        for fill in list(range(200, 216)) + list(range(456, 472)) + [722, 978, 16330 + 3]:
+            owner = (b'mail', b'example', b'net')
+            m = msg_with([{'ty': 10, 'name': (), 'ttl': 0, 'cls': 1, 'f': [bytes(fill)]}, {'ty': 1, 'name': owner, 'ttl': 0, 'cls': 1, 'f': [b'\1\2\3\4']},
+                          rr_of(ty, (b'kx',) + owner[1:], (b'o',))])
+            cs.append(enc_case(m, 'c18-aligned'))
     # the rest of the message must not influence the choice: OPT records (version, DO, extended rcode, options), header
     # bits, opcodes, classes, sections, neighbours of other types
     def opt(ver=0, do=0, ext=0, payload=1232, opts=()):
